@@ -231,30 +231,30 @@ func aesOpen(key, body []byte) ([]byte, error) {
 
 func pipeFamilies(w *world) []*Family {
 	var fams []*Family
-	add := func(name string, cost int, gen func(thorough bool, emit func(Case))) {
-		fams = append(fams, &Family{Name: "pipe/" + name, Cost: cost, Gen: func(_ *world, th bool, emit func(Case)) { gen(th, emit) }})
+	add := func(name string, cost int, gen func(thorough bool, emit func(func() Case))) {
+		fams = append(fams, &Family{Name: "pipe/" + name, Cost: cost, Gen: func(_ *world, th bool, emit func(func() Case)) { gen(th, emit) }})
 	}
 	hs := w.samples()[0]
 	pipe := func(name string, opt pipeOpt) Case {
 		return Case{Name: name, Run: func(m *meter) string { return playPipe(m, opt) }}
 	}
-	add("valid", 20, func(th bool, emit func(Case)) {
-		emit(pipe("pipe/valid/handshake-then-status-request", pipeOpt{hsCode: 0x02, hsPayload: hs.payload}))
+	add("valid", 20, func(th bool, emit func(func() Case)) {
+		emit(func() Case { return pipe("pipe/valid/handshake-then-status-request", pipeOpt{hsCode: 0x02, hsPayload: hs.payload}) })
 	})
-	add("no-handshake", 2000, func(th bool, emit func(Case)) {
-		emit(pipe("pipe/no-handshake/silent", pipeOpt{noHS: true}))
+	add("no-handshake", 2000, func(th bool, emit func(func() Case)) {
+		emit(func() Case { return pipe("pipe/no-handshake/silent", pipeOpt{noHS: true}) })
 	})
-	add("handshake-code", 20, func(th bool, emit func(Case)) {
+	add("handshake-code", 20, func(th bool, emit func(func() Case)) {
 		// the first message of every code, with the handshake payload and with its own sample
 		for code := uint32(0); code <= 0x1f; code++ {
-			emit(pipe(fmt.Sprintf("pipe/handshake-code/%02x/handshake-payload", code), pipeOpt{hsCode: code, hsPayload: hs.payload}))
-			emit(pipe(fmt.Sprintf("pipe/handshake-code/%02x/empty", code), pipeOpt{hsCode: code}))
+			emit(func() Case { return pipe(fmt.Sprintf("pipe/handshake-code/%02x/handshake-payload", code), pipeOpt{hsCode: code, hsPayload: hs.payload}) })
+			emit(func() Case { return pipe(fmt.Sprintf("pipe/handshake-code/%02x/empty", code), pipeOpt{hsCode: code}) })
 		}
 		for _, s := range w.samples()[1:] {
-			emit(pipe(fmt.Sprintf("pipe/handshake-code/%02x/sample=%s", s.code, s.name), pipeOpt{hsCode: s.code, hsPayload: s.payload}))
+			emit(func() Case { return pipe(fmt.Sprintf("pipe/handshake-code/%02x/sample=%s", s.code, s.name), pipeOpt{hsCode: s.code, hsPayload: s.payload}) })
 		}
 	})
-	add("handshake-absurd", 20, func(th bool, emit func(Case)) {
+	add("handshake-absurd", 20, func(th bool, emit func(func() Case)) {
 		heights := []uint32{0, 1, 2, 3, 1000000, 1<<32 - 1}
 		hashes := []string{"g", "a1", "C", "zero"}
 		for _, ch := range heights {
@@ -271,7 +271,7 @@ func pipeFamilies(w *world) []*Family {
 							return
 						}
 						p := &network.ProtocolHandshake{ChainID: 200, GenesisHash: w.hash("g"), NodeVersion: 1, LatestStatus: network.LatestStatus{CurHeight: ch, CurHash: hv(chn), StaHeight: sh, StaHash: hv(shn)}}
-						emit(pipe(fmt.Sprintf("pipe/handshake-absurd/cur=%d:%s/sta=%d:%s", ch, chn, sh, shn), pipeOpt{hsCode: 0x02, hsPayload: enc(p)}))
+						emit(func() Case { return pipe(fmt.Sprintf("pipe/handshake-absurd/cur=%d:%s/sta=%d:%s", ch, chn, sh, shn), pipeOpt{hsCode: 0x02, hsPayload: enc(p)}) })
 					}
 				}
 			}
@@ -286,42 +286,42 @@ func pipeFamilies(w *world) []*Family {
 			{"version=2^32-1", &network.ProtocolHandshake{ChainID: 200, GenesisHash: w.hash("g"), NodeVersion: 1<<32 - 1}},
 			{"all-zero", &network.ProtocolHandshake{}},
 		} {
-			emit(pipe("pipe/handshake-absurd/"+v.n, pipeOpt{hsCode: 0x02, hsPayload: enc(v.p)}))
+			emit(func() Case { return pipe("pipe/handshake-absurd/"+v.n, pipeOpt{hsCode: 0x02, hsPayload: enc(v.p)}) })
 		}
 	})
-	add("handshake-trunc", 20, func(th bool, emit func(Case)) {
+	add("handshake-trunc", 20, func(th bool, emit func(func() Case)) {
 		for cut := 0; cut < len(hs.payload); cut++ {
 			if !th && cut%5 != 0 {
 				continue
 			}
-			emit(pipe(fmt.Sprintf("pipe/handshake-trunc/cut=%03d", cut), pipeOpt{hsCode: 0x02, hsPayload: hs.payload[:cut]}))
+			emit(func() Case { return pipe(fmt.Sprintf("pipe/handshake-trunc/cut=%03d", cut), pipeOpt{hsCode: 0x02, hsPayload: hs.payload[:cut]}) })
 		}
 	})
-	add("handshake-rlp", 20, func(th bool, emit func(Case)) {
+	add("handshake-rlp", 20, func(th bool, emit func(func() Case)) {
 		for _, p := range rlpPayloads(false) {
 			if len(p.b) > 4096 && !th {
 				continue
 			}
-			emit(pipe("pipe/handshake-rlp/"+p.name, pipeOpt{hsCode: 0x02, hsPayload: p.b}))
+			emit(func() Case { return pipe("pipe/handshake-rlp/"+p.name, pipeOpt{hsCode: 0x02, hsPayload: p.b}) })
 		}
 	})
-	add("handshake-mut", 20, func(th bool, emit func(Case)) {
+	add("handshake-mut", 20, func(th bool, emit func(func() Case)) {
 		for pos := range hs.payload {
 			for _, v := range boundaryVals(hs.payload[pos], th) {
 				if !th && pos%3 != 0 {
 					continue
 				}
-				emit(pipe(fmt.Sprintf("pipe/handshake-mut/pos=%03d/val=%02x", pos, v), pipeOpt{hsCode: 0x02, hsPayload: withByte(hs.payload, pos, v)}))
+				emit(func() Case { return pipe(fmt.Sprintf("pipe/handshake-mut/pos=%03d/val=%02x", pos, v), pipeOpt{hsCode: 0x02, hsPayload: withByte(hs.payload, pos, v)}) })
 			}
 		}
 	})
-	add("after-handshake", 25, func(th bool, emit func(Case)) {
+	add("after-handshake", 25, func(th bool, emit func(func() Case)) {
 		for _, s := range w.samples()[1:] {
-			emit(pipe("pipe/after-handshake/sample="+s.name, pipeOpt{hsCode: 0x02, hsPayload: hs.payload, msgs: []wire{{s.code, s.payload}}}))
-			emit(pipe("pipe/after-handshake/truncated="+s.name, pipeOpt{hsCode: 0x02, hsPayload: hs.payload, msgs: []wire{{s.code, s.payload[:len(s.payload)/2]}}}))
+			emit(func() Case { return pipe("pipe/after-handshake/sample="+s.name, pipeOpt{hsCode: 0x02, hsPayload: hs.payload, msgs: []wire{{s.code, s.payload}}}) })
+			emit(func() Case { return pipe("pipe/after-handshake/truncated="+s.name, pipeOpt{hsCode: 0x02, hsPayload: hs.payload, msgs: []wire{{s.code, s.payload[:len(s.payload)/2]}}}) })
 		}
 		for code := uint32(0); code <= 0x21; code++ {
-			emit(pipe(fmt.Sprintf("pipe/after-handshake/code=%02x/empty", code), pipeOpt{hsCode: 0x02, hsPayload: hs.payload, msgs: []wire{{code, nil}}}))
+			emit(func() Case { return pipe(fmt.Sprintf("pipe/after-handshake/code=%02x/empty", code), pipeOpt{hsCode: 0x02, hsPayload: hs.payload, msgs: []wire{{code, nil}}}) })
 		}
 		// raw garbage after the protocol handshake
 		raws := map[string][]byte{
@@ -334,14 +334,14 @@ func pipeFamilies(w *world) []*Family {
 			"junk":               bytes.Repeat([]byte{0x5a}, 1000),
 		}
 		for _, n := range []string{"7-byte-frame", "zero-length-frame", "bad-magic", "too-long", "max-declared-empty", "16-zero-bytes", "junk"} {
-			emit(pipe("pipe/after-handshake/raw="+n, pipeOpt{hsCode: 0x02, hsPayload: hs.payload, raw: [][]byte{raws[n]}, incomplete: n == "max-declared-empty"}))
+			emit(func() Case { return pipe("pipe/after-handshake/raw="+n, pipeOpt{hsCode: 0x02, hsPayload: hs.payload, raw: [][]byte{raws[n]}, incomplete: n == "max-declared-empty"}) })
 		}
 		// frames with a plaintext shorter than the code, under the real session key
 		for l := 0; l < 4; l++ {
 			l := l
-			emit(pipe(fmt.Sprintf("pipe/after-handshake/short-plaintext=%d", l), pipeOpt{hsCode: 0x02, hsPayload: hs.payload, rawK: func(key []byte) [][]byte {
+			emit(func() Case { return pipe(fmt.Sprintf("pipe/after-handshake/short-plaintext=%d", l), pipeOpt{hsCode: 0x02, hsPayload: hs.payload, rawK: func(key []byte) [][]byte {
 				return [][]byte{framePlain(key, make([]byte, l))}
-			}}))
+			}}) })
 		}
 	})
 	return fams
